@@ -71,6 +71,7 @@ fn history(g: &mut Gen, spec: &OptSpec, params: Vec<Vec<Vec<Tensor>>>, nsteps: u
             0 => 1.0,                                   // random
             1 => if i % 2 == 0 { 1.0 } else { -1.0 },  // sign flipping (applied to |g| below)
             2 => 1e-6,                                  // tiny
+            6 => 1e-10,                                 // minute (against a subnormal / tiny epsilon)
             3 => 300.0,                                 // large
             _ => 0.0,                                   // sparse: mostly zero
         };
@@ -119,6 +120,17 @@ pub fn generate(g: &mut Gen) {
         for pattern in [2usize, 3, 4] {
             let params = params_for(g, 2);
             history(g, &spec, params, 10, &format!("{}/table2/pattern{}", spec.kind(), pattern), pattern);
+        }
+    }
+    // hyper-parameters at the edge of the number range: a subnormal, a tiny and a large epsilon are used as given (only
+    // an epsilon of exactly zero means "default"); minute and ordinary gradients
+    for eps in [1e-40f32, f32::from_bits(1), 1e-30, 10.0] {
+        for spec in [OptSpec::Adam(0.01, 0.9, 0.999, eps, None), OptSpec::AdamW(0.01, 0.9, 0.999, eps, 0.01),
+                     OptSpec::Rmsprop(0.01, 0.9, eps, None, None, false), OptSpec::Rmsprop(0.01, 0.9, eps, None, Some(0.5), true)] {
+            for pattern in [6usize, 0] {
+                let params = params_for(g, 2);
+                history(g, &spec, params, 8, &format!("{}/epsilon-scale/pattern{}", spec.kind(), pattern), pattern);
+            }
         }
     }
     // long constant / near-constant histories on one slot: the centred variance is a difference of
